@@ -211,8 +211,10 @@ func NdJSON(raw []byte, limit uint32) bool {
 	var l []byte
 	for len(raw) != 0 {
 		l, raw = scanLine(raw)
-		_, inspected, firstToken, _ := json.Parse(json.QueryNone, l)
-		if len(l) != inspected {
+		parsed, _, firstToken, _ := json.Parse(json.QueryNone, l)
+		// The incomplete last line was dropped above, so every remaining line
+		// must be a whole JSON value (or be blank), not just the start of one.
+		if parsed != len(l) && len(bytes.TrimSpace(l)) != 0 {
 			return false
 		}
 		if firstToken == json.TokArray || firstToken == json.TokObject {
